@@ -289,72 +289,133 @@ def lift():
     lev = Ev({'number': number, 'start': start}, {'self._num_parts': z3.Int('num_parts')})
     asserts = [s for s in cpl.body if isinstance(s, ast.Assert)]
     seeks = _calls(cpl, 'seek')
-    opens = [c for c in ast.walk(cpl) if isinstance(c, ast.Call) and any(
-        isinstance(a, ast.Constant) and a.value == 'r+b' for a in c.args)]
-    if len(asserts) != 1 or len(seeks) != 1 or len(seeks[0].args) != 1 or not opens:
+    if len(asserts) != 1 or len(seeks) != 1 or len(seeks[0].args) != 1:
         raise HarnessError('LocalMultiPartCreate.create_part changed shape')
     out['local_assert'] = lev.b(lev.e(asserts[0].test))
     out['local_seek'] = lev.e(seeks[0].args[0])
     out['local_vars'] = {'number': number, 'start': start, 'num_parts': z3.Int('num_parts')}
     out['src']['local_create_part'] = ast.unparse(asserts[0]) + '; ' + ast.unparse(seeks[0])
+    # how the destination file is opened: by the create step of a multi-part copy, by each part, by a plain create
+    lcreate = _func(ltree, 'create', 'LocalAsyncFS')
+    out['open_multi_create'] = open_effects(mpc, ltree)
+    out['open_part'] = open_effects(cpl, ltree)
+    out['open_single'] = open_effects(lcreate, ltree)
     out['nodes'] = {'main': (main.lineno, ast.get_source_segment(ctext, main)),
                     'part': (part.lineno, ast.get_source_segment(ctext, part)),
                     'local_create_part': (cpl.lineno, ast.get_source_segment(ltext, cpl)),
-                    'local_multi_part_create': (mpc.lineno, ast.get_source_segment(ltext, mpc))}
+                    'local_multi_part_create': (mpc.lineno, ast.get_source_segment(ltext, mpc)),
+                    'local_create': (lcreate.lineno, ast.get_source_segment(ltext, lcreate))}
     return out
 
 
+def _mode_effect(mode):
+    if not isinstance(mode, str):
+        raise HarnessError(f'open mode is not a string constant: {mode!r}')
+    return {'how': f'open mode {mode!r}', 'creates': mode[0] in 'wax', 'truncates': mode[0] == 'w',
+            'exclusive': mode[0] == 'x', 'append': mode[0] == 'a'}
+
+
+def _flags_effect(node):
+    names = set()
+    for n in ast.walk(node):
+        if isinstance(n, ast.Attribute) and n.attr.startswith('O_'):
+            names.add(n.attr)
+        elif isinstance(n, (ast.BinOp, ast.BitOr, ast.Name, ast.Load)) or (isinstance(n, ast.Attribute)):
+            continue
+        else:
+            raise HarnessError(f'os.open flags are not a plain O_* disjunction: {ast.unparse(node)}')
+    return {'how': 'os.open flags ' + '|'.join(sorted(names)), 'creates': 'O_CREAT' in names,
+            'truncates': 'O_TRUNC' in names, 'exclusive': 'O_EXCL' in names, 'append': 'O_APPEND' in names}
+
+
+def open_effects(fn, tree, depth=0):
+    """Every way `fn` opens a file, in source order: builtin open(path, mode) / os.open(path, flags), called directly
+    or handed to blocking_to_async(pool, open, path, mode); `self.create(url)` is followed into LocalAsyncFS.create."""
+    effs = []
+    calls = sorted([c for c in ast.walk(fn) if isinstance(c, ast.Call)], key=lambda c: (c.lineno, c.col_offset))
+    for c in calls:
+        f = ast.unparse(c.func)
+        kw = {k.arg: k.value for k in c.keywords}
+        if f == 'open':
+            m = c.args[1] if len(c.args) > 1 else kw.get('mode')
+            effs.append(_mode_effect(m.value if isinstance(m, ast.Constant) else ('r' if m is None else None)))
+        elif f == 'os.open':
+            effs.append(_flags_effect(c.args[1] if len(c.args) > 1 else kw['flags']))
+        else:
+            for k, a in enumerate(c.args):
+                ua = ast.unparse(a)
+                if ua == 'open':
+                    m = c.args[k + 2] if len(c.args) > k + 2 else None
+                    effs.append(_mode_effect(m.value if isinstance(m, ast.Constant) else ('r' if m is None else None)))
+                elif ua == 'os.open':
+                    if len(c.args) <= k + 2:
+                        raise HarnessError('os.open handed to a helper without flags')
+                    effs.append(_flags_effect(c.args[k + 2]))
+            if f in ('self.create', 'self._fs.create') and depth < 2:
+                effs += open_effects(_func(tree, 'create', 'LocalAsyncFS'), tree, depth + 1)
+    if not effs:
+        raise HarnessError(f'{fn.name}: no file-opening step found')
+    return effs
+
+
 # ---- concrete execution of the real coroutine ------------------------------------------------------------
-def concrete_run(size, part_size, buffer_size):
-    """Runs the real SourceCopier._copy_file_multi_part_main on a recording FS.
-    -> dict(num_parts, parts=[(number, start, size_hint)], reads={number: [(offset, length)]}, dest bytes, src bytes)"""
+def concrete_run(size, part_size, buffer_size, old_len=None):
+    """Runs the real SourceCopier._copy_file_multi_part_main (real _copy_part / _copy_file, real LocalAsyncFS.create /
+    multi_part_create / LocalMultiPartCreate) against an in-memory disk reached through fake builtin `open` and
+    `os.open`.  `old_len`: length of a destination file that already exists (None: absent).
+    -> dict(num_parts, parts, reads, identical, dest_len, opens, len_after_first_open)"""
     loader.install()
+    import concurrent.futures
+    import os as real_os
+    import tempfile
+
+    from hailtop.aiotools import local_fs as LF
     from hailtop.aiotools.fs import copier as C
     from hailtop.aiotools.weighted_semaphore import WeightedSemaphore
 
     data = bytes((7 * k + 1) % 251 for k in range(size))
-    rec = {'num_parts': None, 'parts': [], 'reads': {}, 'single': None}
-    dest = bytearray(size)
-    written = bytearray(size)
-
-    class Src:
-        def __init__(self, off, ln):
-            self.off, self.ln = off, ln
-
-        async def __aenter__(self):
-            return self
-
-        async def __aexit__(self, *a):
-            return False
-
-        async def readexactly(self, k):
-            b = data[self.off:self.off + min(k, self.ln)]
-            if len(b) != k:
-                raise C.UnexpectedEOFError()
-            return b
+    rec = {'num_parts': None, 'parts': [], 'reads': {}, 'opens': [], 'len_after_first_open': None}
+    DEST = '/d'
+    files = {}
+    if old_len is not None:
+        files[DEST] = bytearray((5 * k + 3) % 251 for k in range(old_len))
+    written = set()
+    scratch = tempfile.TemporaryFile()
+    fds = {}
 
     class RWFile:
-        """what builtin open(path, 'r+b') gives the real LocalMultiPartCreate: seek + write into `dest`"""
-
-        def __init__(self):
-            self.pos = 0
+        def __init__(self, path, append=False):
+            self.path, self.append = path, append
+            self.pos = len(files[path]) if append else 0
             self.closed = False
 
         def seek(self, off, whence=0):
-            self.pos = off
-            return off
-
-        def write(self, b):
-            for k, x in enumerate(b):
-                if self.pos + k >= size or written[self.pos + k]:
-                    raise HarnessError('part wrote outside the file or twice')
-                dest[self.pos + k] = x
-                written[self.pos + k] = 1
-            self.pos += len(b)
-            return len(b)
+            self.pos = off if whence == 0 else (self.pos + off if whence == 1 else len(files[self.path]) + off)
+            return self.pos
 
         def tell(self):
             return self.pos
+
+        def write(self, b):
+            buf = files[self.path]
+            if self.append:
+                self.pos = len(buf)
+            if self.pos > len(buf):
+                buf.extend(bytes(self.pos - len(buf)))
+            for k, x in enumerate(b):
+                q = self.pos + k
+                if q in written:
+                    raise HarnessError('a destination byte was written twice')
+                written.add(q)
+                if q < len(buf):
+                    buf[q] = x
+                else:
+                    buf.append(x)
+            self.pos += len(b)
+            return len(b)
+
+        def read(self, n=-1):
+            raise HarnessError('destination read back')
 
         def writable(self):
             return True
@@ -374,8 +435,77 @@ def concrete_run(size, part_size, buffer_size):
         def __exit__(self, *a):
             self.close()
 
-    from hailtop.aiotools import local_fs as LF
-    import concurrent.futures
+    def _opened(path, how):
+        rec['opens'].append(how)
+        if rec['len_after_first_open'] is None and path in files:
+            rec['len_after_first_open'] = len(files[path])
+
+    def fake_open(path, mode='r', *a, **k):
+        if path != DEST:
+            raise HarnessError(f'open of {path}')
+        c = mode[0]
+        if c == 'w':
+            files[path] = bytearray()
+        elif c == 'x':
+            if path in files:
+                raise FileExistsError(path)
+            files[path] = bytearray()
+        elif c == 'a':
+            files.setdefault(path, bytearray())
+        elif path not in files:
+            raise FileNotFoundError(path)
+        _opened(path, f'open {mode}')
+        return RWFile(path, append=(c == 'a'))
+
+    class OsProxy:
+        """local_fs's view of `os`: open/close/fdopen/ftruncate/truncate act on the in-memory disk"""
+
+        def __getattr__(self, k):
+            return getattr(real_os, k)
+
+        @staticmethod
+        def open(path, flags, mode=0o777, **k):
+            if path != DEST:
+                raise HarnessError(f'os.open of {path}')
+            if path in files:
+                if flags & real_os.O_CREAT and flags & real_os.O_EXCL:
+                    raise FileExistsError(path)
+            elif flags & real_os.O_CREAT:
+                files[path] = bytearray()
+            else:
+                raise FileNotFoundError(path)
+            if flags & real_os.O_TRUNC:
+                files[path] = bytearray()
+            fd = 100000 + len(fds)
+            fds[fd] = (path, bool(flags & real_os.O_APPEND))
+            _opened(path, f'os.open {flags:#o}')
+            return fd
+
+        @staticmethod
+        def close(fd):
+            if fd in fds:
+                return None
+            return real_os.close(fd)
+
+        @staticmethod
+        def fdopen(fd, mode='r', *a, **k):
+            if fd in fds:
+                return RWFile(fds[fd][0], append=fds[fd][1])
+            return real_os.fdopen(fd, mode, *a, **k)
+
+        @staticmethod
+        def ftruncate(fd, n):
+            if fd in fds:
+                del files[fds[fd][0]][n:]
+                return None
+            return real_os.ftruncate(fd, n)
+
+        @staticmethod
+        def truncate(path, n):
+            if path in files:
+                del files[path][n:]
+                return None
+            return real_os.truncate(path, n)
 
     class Inline(concurrent.futures.Executor):
         def submit(self, fn, *a, **k):
@@ -386,11 +516,29 @@ def concrete_run(size, part_size, buffer_size):
                 f.set_exception(e)
             return f
 
-    import tempfile
-    scratch = tempfile.TemporaryFile()
+    class Src:
+        def __init__(self, off, ln):
+            self.off, self.ln = off, ln
+
+        async def __aenter__(self):
+            return self
+
+        async def __aexit__(self, *a):
+            return False
+
+        async def readexactly(self, k):
+            b = data[self.off:self.off + min(k, self.ln)]
+            if len(b) != k:
+                raise C.UnexpectedEOFError()
+            return b
+
+        async def read(self, k=-1):
+            b = data[self.off:] if k < 0 else data[self.off:self.off + k]
+            self.off += len(b)
+            return b
+
     lfs = LF.LocalAsyncFS.__new__(LF.LocalAsyncFS)
     lfs._thread_pool = Inline()
-    LF.open = lambda path, mode='rb': RWFile()
 
     class Creator:
         """records create_part calls and forwards them to the REAL LocalMultiPartCreate"""
@@ -418,6 +566,15 @@ def concrete_run(size, part_size, buffer_size):
             rec['num_parts'] = n
             return Creator(await lfs.multi_part_create(sema, url, n))
 
+        async def create(self, url, retry_writes=True):
+            return await lfs.create(url, retry_writes=retry_writes)
+
+        async def makedirs(self, url, exist_ok=False):
+            return None
+
+        async def open(self, url):
+            return Src(0, size)
+
         async def open_from(self, url, off, length=None):
             # attribute the read to the part whose range contains it
             rec['reads'].setdefault(off // part_size, []).append((off, length))
@@ -434,18 +591,20 @@ def concrete_run(size, part_size, buffer_size):
     sc = C.SourceCopier.__new__(C.SourceCopier)
     sc.router_fs = FS()
     sc.xfer_sema = WeightedSemaphore(35 * C.Copier.BUFFER_SIZE)
-
-    async def single(source_report, srcfile, sz, destfile):
-        rec['single'] = sz
-    sc._copy_file = single
-    old = C.Copier.BUFFER_SIZE
+    old_buf = C.Copier.BUFFER_SIZE
     C.Copier.BUFFER_SIZE = buffer_size
+    LF.open = fake_open
+    LF.os = OsProxy()
     loop = asyncio.new_event_loop()
     try:
-        loop.run_until_complete(sc._copy_file_multi_part_main(asyncio.Semaphore(1), Report(), '/s', Stat(), '/d', False))
+        loop.run_until_complete(sc._copy_file_multi_part_main(asyncio.Semaphore(1), Report(), '/s', Stat(), DEST, False))
     finally:
-        C.Copier.BUFFER_SIZE = old
+        C.Copier.BUFFER_SIZE = old_buf
+        LF.os = real_os
+        del LF.open
         loop.close()
         scratch.close()
-    rec['identical'] = rec['single'] is not None or (bytes(dest) == data and all(written))
+    rec['single'] = size if rec['num_parts'] is None else None
+    rec['dest_len'] = len(files.get(DEST, b''))
+    rec['identical'] = DEST in files and bytes(files[DEST]) == data
     return rec
